@@ -32,7 +32,7 @@ func buildEvidence(cfg *config, results []*jobResult, extra map[string]interface
 			distinct[jr.job.WL+jr.job.Mode+s] = true
 		}
 		for k, v := range jr.stats {
-			if k == "yield_sites" || k == "package_vars" {
+			if k == "yield_sites" || k == "package_vars" || k == "site_pairs_this_process" {
 				if v > stats[k] {
 					stats[k] = v
 				}
@@ -57,6 +57,24 @@ func buildEvidence(cfg *config, results []*jobResult, extra map[string]interface
 			"seed": jr.job.Seed, "runs_planned": jr.job.Runs, "runs_executed": jr.runs, "nontrivial_distinct": len(jr.nontriv), "wall_s": round1(jr.wall), "runs_per_hour": int64(perHour),
 			"failing_runs": len(jr.failures),
 		})
+	}
+	var pairUnion []byte
+	for _, jr := range results {
+		if len(pairUnion) < len(jr.pairBits) {
+			pairUnion = append(pairUnion, make([]byte, len(jr.pairBits)-len(pairUnion))...)
+		}
+		for i := range jr.pairBits {
+			pairUnion[i] |= jr.pairBits[i]
+		}
+	}
+	if len(pairUnion) > 0 {
+		n := 0
+		for _, b := range pairUnion {
+			for ; b != 0; b &= b - 1 {
+				n++
+			}
+		}
+		cov["distinct_interleaving_points"] = map[string]interface{}{"measure": "distinct (preempted yield site, yield site at which the resumed task had stopped) pairs, hashed into 65536 buckets, union over all workers", "value": n}
 	}
 	cov["evaluations"] = evals
 	cov["distinct_nontrivial"] = len(distinct)
